@@ -144,6 +144,10 @@ mod convert;
 mod encoding;
 mod kind;
 
+#[cfg(zcash_librustzcash_verif)]
+#[doc(hidden)]
+pub mod verif_hooks;
+
 #[cfg(feature = "test-dependencies")]
 pub mod test_vectors;
 
